@@ -263,7 +263,7 @@ theorem rc_tx (fuel : Nat) (h : Store) (x y : Val) (p : String) (b : Bytes) :
       m_RendezvousConnector_tx_allocate, m_RendezvousConnector_tx_add]
 
 /-- the `Cmd` names the `tx_*` methods pass to `_tx` are the model's -/
-theorem rc_tx_names : [Cmd.claim, .release, .open_, .close .happy, .list, .allocate, .add .num].map WV.Props.ClientSkel.cmdName =
+theorem rc_tx_names : [Cmd.claim, .release, .open_, .close .happy, .list, .allocate, .add .num].map cmdName =
     ["claim", "release", "open", "close", "list", "allocate", "add"] := by decide
 
 /-- the server-frame handlers: each hands the frame's field(s) to exactly the input that `Client.step` names for the
